@@ -67,32 +67,133 @@ func yieldStmt(label string, fset *token.FileSet, pos token.Pos, spin bool) ast.
 	}}
 }
 
-func rewriteList(label string, fset *token.FileSet, list []ast.Stmt) []ast.Stmt {
+// lockCall classifies a statement: +1 for x.Lock(), -1 for x.Unlock(), 0
+// otherwise; deferred reports `defer x.Unlock()`.
+func lockCall(st ast.Stmt) (delta int, deferred bool) {
+	var call *ast.CallExpr
+	switch s := st.(type) {
+	case *ast.ExprStmt:
+		call, _ = s.X.(*ast.CallExpr)
+	case *ast.DeferStmt:
+		call = s.Call
+		deferred = true
+	}
+	if call == nil {
+		return 0, false
+	}
+	sel, ok := call.Fun.(*ast.SelectorExpr)
+	if !ok {
+		return 0, false
+	}
+	// Only exclusive locks count: a goroutine parked with a read lock held
+	// blocks writers only, and the one read lock that is held across scheduling
+	// points (Executor.dirty, for the whole of Run) is modelled by the scheduler.
+	switch sel.Sel.Name {
+	case "Lock":
+		if deferred {
+			return 0, false
+		}
+		return 1, false
+	case "Unlock":
+		return -1, deferred
+	}
+	return 0, false
+}
+
+// rewriteList inserts the yields into one statement list and recurses into
+// nested statements. held > 0 means that a mutex taken in an enclosing (or
+// this) list is held here: no yield is ever inserted there, because a
+// goroutine parked with a mutex held would block the others where the
+// scheduler cannot see them. A `defer x.Unlock()` keeps the lock held to the
+// end of the function.
+func rewriteList(label string, fset *token.FileSet, list []ast.Stmt, held int) []ast.Stmt {
 	var out []ast.Stmt
+	untilEnd := false
 	for _, st := range list {
+		delta, deferred := lockCall(st)
 		need := false
 		switch s := st.(type) {
 		case *ast.ForStmt:
-			if (s.Cond != nil && hasAtomicCall(s.Cond)) || (s.Init != nil && hasAtomicCall(s.Init)) {
+			if held == 0 && ((s.Cond != nil && hasAtomicCall(s.Cond)) || (s.Init != nil && hasAtomicCall(s.Init))) {
 				need = true
-				s.Body.List = append([]ast.Stmt{yieldStmt(label, fset, s.Pos(), true)}, s.Body.List...)
+				s.Body.List = append([]ast.Stmt{yieldStmt(label, fset, s.Pos(), true)}, rewriteList(label, fset, s.Body.List, held)...)
+			} else {
+				s.Body.List = rewriteList(label, fset, s.Body.List, held)
 			}
 		case *ast.IfStmt:
 			if (s.Init != nil && hasAtomicCall(s.Init)) || hasAtomicCall(s.Cond) {
 				need = true
 			}
-		case *ast.BlockStmt, *ast.RangeStmt, *ast.SwitchStmt, *ast.TypeSwitchStmt, *ast.SelectStmt, *ast.LabeledStmt:
-			// handled by recursion
+			rewriteIf(label, fset, s, held)
+		case *ast.BlockStmt:
+			s.List = rewriteList(label, fset, s.List, held)
+		case *ast.RangeStmt:
+			s.Body.List = rewriteList(label, fset, s.Body.List, held)
+		case *ast.SwitchStmt:
+			rewriteClauses(label, fset, s.Body, held)
+		case *ast.TypeSwitchStmt:
+			rewriteClauses(label, fset, s.Body, held)
+		case *ast.SelectStmt:
+			rewriteClauses(label, fset, s.Body, held)
+		case *ast.LabeledStmt:
+			tmp := rewriteList(label, fset, []ast.Stmt{s.Stmt}, held)
+			if len(tmp) == 2 {
+				// a yield was inserted before the labelled statement: keep the label first
+				out = append(out, tmp[0])
+			}
 		case *ast.DeferStmt, *ast.GoStmt:
+			rewriteFuncLits(label, fset, st)
 		default:
 			need = hasAtomicCall(st)
+			rewriteFuncLits(label, fset, st)
 		}
-		if need {
+		if need && held == 0 {
 			out = append(out, yieldStmt(label, fset, st.Pos(), false))
 		}
 		out = append(out, st)
+		switch {
+		case delta > 0:
+			held++
+		case delta < 0 && deferred:
+			untilEnd = true
+		case delta < 0 && held > 0 && !untilEnd:
+			held--
+		}
 	}
 	return out
+}
+
+func rewriteIf(label string, fset *token.FileSet, s *ast.IfStmt, held int) {
+	s.Body.List = rewriteList(label, fset, s.Body.List, held)
+	switch e := s.Else.(type) {
+	case *ast.BlockStmt:
+		e.List = rewriteList(label, fset, e.List, held)
+	case *ast.IfStmt:
+		rewriteIf(label, fset, e, held)
+	}
+}
+
+func rewriteClauses(label string, fset *token.FileSet, body *ast.BlockStmt, held int) {
+	for _, c := range body.List {
+		switch cl := c.(type) {
+		case *ast.CaseClause:
+			cl.Body = rewriteList(label, fset, cl.Body, held)
+		case *ast.CommClause:
+			cl.Body = rewriteList(label, fset, cl.Body, held)
+		}
+	}
+}
+
+// rewriteFuncLits rewrites the bodies of function literals inside a statement
+// (goroutine bodies, deferred closures, callbacks); they start with no lock held.
+func rewriteFuncLits(label string, fset *token.FileSet, n ast.Node) {
+	ast.Inspect(n, func(x ast.Node) bool {
+		if fl, ok := x.(*ast.FuncLit); ok {
+			fl.Body.List = rewriteList(label, fset, fl.Body.List, 0)
+			return false
+		}
+		return true
+	})
 }
 
 func main() {
@@ -150,21 +251,13 @@ func main() {
 			os.Exit(2)
 		}
 	}
-	ast.Inspect(f, func(n ast.Node) bool {
-		switch b := n.(type) {
-		case *ast.FuncDecl:
-			if skipped[b.Name.Name] {
-				return false
-			}
-		case *ast.BlockStmt:
-			b.List = rewriteList(label, fset, b.List)
-		case *ast.CaseClause:
-			b.Body = rewriteList(label, fset, b.Body)
-		case *ast.CommClause:
-			b.Body = rewriteList(label, fset, b.Body)
+	for _, d := range f.Decls {
+		fd, ok := d.(*ast.FuncDecl)
+		if !ok || fd.Body == nil || skipped[fd.Name.Name] {
+			continue
 		}
-		return true
-	})
+		fd.Body.List = rewriteList(label, fset, fd.Body.List, 0)
+	}
 	var buf bytes.Buffer
 	if err := format.Node(&buf, fset, f); err != nil {
 		fmt.Fprintln(os.Stderr, err)
